@@ -9,6 +9,12 @@ CONSTANTS
   PreStarted = FALSE
   FixedStopOrder = 0
   ResetInRun = FALSE
+  BMin = 4
+  BMax = 18
+  BMulP = 3
+  BMulQ = 2
+  Sleeps = {8}
+  PauseMax = FALSE
   MaxTok = 7
   PreBoot = FALSE
 SPECIFICATION GenSpec
